@@ -5,15 +5,23 @@
    (c/tskit/tables.c, the simplifier functions) is tied to [simplify_spec] by the per-run correspondence
    only (label: partial).  The full refinement statement that is NOT proved:
      simplify_alg_refines_spec_partial :
-       forall t smp o, valid t -> simplifier_run (model of the C data structures) t smp o
-                                  = simplify_spec t smp o.
+       forall t smp o, valid t -> simplify_alg t smp o (C04/SimplifyAlg.v, the model of the C
+                                  data structures) = simplify_spec t smp o.
+   Proved components of the algorithm model (bottom of this file): the segment overlapper,
+   extract_ancestry, edge buffering/flush = the spec's squash, ancestry squashing,
+   rewind_node, and one whole merge_ancestors step for the default options in terms of
+   the queue.  Missing for the full statement: the invariant over the parents in time
+   order ("the queue segment of child c covers x iff c carries a chosen sample at x, and
+   its node is the spec's mut_target of c"), sample / keep_unary parents, the input-roots
+   pass, reduce_to_site_topology, and the output numbering.
    Per position, a forest is a parent map [par]; it is acyclic because a measure [depth]
    decreases strictly towards the root (tskit: time[child] < time[parent]), [fuel] exceeds
    every depth (so no walk of the executable definitions runs out of fuel), and [nodes]
    lists every node that has a parent, once.  Non-vacuity: C04/Examples.v. *)
 From Coq Require Import List ZArith Bool.
 From TskVerif Require Import Base.Common C04.Model C04.ForestProofs C04.ReduceProofs
-  C04.IdemProofs C04.GenoProofs C04.SpecProofs C04.Examples C04.SimplifyAlg C04.OverlapProofs C04.ExtractProofs.
+  C04.IdemProofs C04.GenoProofs C04.SpecProofs C04.Examples C04.SimplifyAlg C04.OverlapProofs C04.ExtractProofs
+  C04.BufferProofs C04.MergeProofs.
 Import ListNotations.
 
 (* (a) every chosen sample is retained *)
@@ -129,14 +137,7 @@ Theorem simplify_idempotent_reduce_filter_refuted :
     spec_idempotent_on t smp o = false.
 Proof. exact simplify_idempotent_reduce_filter_refuted_lemma. Qed.
 
-(* keep_input_roots + reduce_to_site_topology + filter_nodes leaves an unreferenced
-   non-sample node in the output (and is therefore not idempotent either) *)
-Theorem simplify_isolated_root_refuted :
-  exists t smp o,
-    o_kir o = true /\ o_rts o = true /\ o_fn o = true /\ o_fs o = false /\
-    unreferenced_nodes (simplify_spec t smp o) smp <> [] /\
-    spec_idempotent_on t smp o = false.
-Proof. exact simplify_isolated_root_refuted_lemma. Qed.
+
 
 (* About the model of the C ALGORITHM (C04/SimplifyAlg.v), the one proved component: the
    segment overlapper (segment_overlapper_start/_next).  For well-formed queued segments
@@ -183,3 +184,67 @@ Theorem spec_sites_filtered :
      (s < length (t_sites t))%nat /\
      exists m, In m (t_muts t) /\ fst (fst m) = s /\ spec_target t smp o m <> None).
 Proof. exact spec_sites_filtered_lemma. Qed.
+
+(* ---- extension round: further components of the algorithm model ----------------------- *)
+(* simplifier_record_edge: whatever the interleaving of children, the intervals buffered
+   for child c are the specification's [squash] of c's recorded intervals *)
+Theorem buffer_is_squash :
+  forall (rs : list record) (c : Z), lookup c (buf_of rs) = squash None (intervals_of c rs).
+Proof. exact buffer_is_squash_lemma. Qed.
+
+(* simplifier_flush_edges: the appended edge rows are exactly (squashed interval, parent, child) *)
+Theorem flush_edges_squash :
+  forall (s : st) (parent : Z) (rs : list record) l r p c,
+    In (l, r, p, c) (flushed s parent (buf_of rs)) <->
+    p = parent /\ In (l, r) (squash None (intervals_of c rs)).
+Proof. exact flush_edges_squash_lemma. Qed.
+
+(* simplifier_add_ancestry: squashing with the tail segment loses and invents nothing *)
+Theorem add_ancestry_carries :
+  forall (a : list seg) (l r out x n : Z),
+    (l < r)%Z -> (forall sg, In sg a -> (seg_l sg < seg_r sg)%Z) ->
+    (carries (snoc_seg a l r out) x n <-> carries a x n \/ (n = out /\ (l <= x < r)%Z)).
+Proof. exact snoc_seg_carries_lemma. Qed.
+
+Theorem add_ancestry_is_snoc :
+  forall (t : tables) (s : st) (u : nat) (l r out : Z),
+    (u < length (s_anc s))%nat ->
+    nth u (s_anc (add_ancestry t s u l r out)) [] = snoc_seg (nth u (s_anc s) []) l r out.
+Proof. exact add_ancestry_is_snoc_seg. Qed.
+
+(* simplifier_rewind_node undoes simplifier_record_node *)
+Theorem rewind_undoes_record :
+  forall (s : st) (u : nat),
+    nth u (s_map s) (-1)%Z = (-1)%Z -> (u < length (s_map s))%nat ->
+    rewind_node (fst (record_node s u)) u (snd (record_node s u)) = s.
+Proof. exact rewind_undoes_record_lemma. Qed.
+
+(* simplifier_merge_ancestors, default options (no unary retention, no
+   reduce_to_site_topology), non-sample parent u, queue Q: with P the overlapper's pieces
+   (each carrying exactly the covering segments, overlapper_partition) --
+   the parent's ancestry becomes [step_anc]: pass-through of the single segment's node on
+   pieces with one segment, the parent's output node on the others; and the appended edge
+   rows are, per child, the squashed intervals of the pieces with more than one segment. *)
+Theorem merge_ancestors_default :
+  forall (t : tables) (smp : list nat) (o : opts) (s : st) (u : nat) (Q : list seg),
+    o_rts o = false -> o_ku o = false -> o_kui o = false -> is_sample smp u = false ->
+    (u < length (s_anc s))%nat ->
+    let P := overlaps t Q in
+    let oid' := step_oid (nth u (s_map s) (-1)%Z) (Z.of_nat (length (s_nodes s))) P in
+    let s' := merge_ancestors t smp o s u Q in
+    nth u (s_anc s') [] = step_anc (nth u (s_anc s) []) oid' P /\
+    (forall l r p c,
+       In (l, r, p, c) (skipn (length (s_edges s)) (s_edges s')) <->
+       oid' <> (-1)%Z /\ p = oid' /\ In (l, r) (squash None (intervals_of c (step_records P)))).
+Proof. exact merge_ancestors_default_lemma. Qed.
+
+(* ... and what [step_anc] means position by position *)
+Theorem step_anc_carries :
+  forall oid (P : list pieceT) (a0 : list seg),
+    (forall p, In p P -> (p_l p < p_r p)%Z) ->
+    (forall sg, In sg a0 -> (seg_l sg < seg_r sg)%Z) ->
+    forall x n,
+      carries (step_anc a0 oid P) x n <->
+      carries a0 x n \/
+      exists p, In p P /\ (p_l p <= x < p_r p)%Z /\ n = (if coal p then oid else pass_node p).
+Proof. exact step_anc_carries_lemma. Qed.
